@@ -351,6 +351,13 @@ class Ctx:
             # even when the whole module does not build, single theorems may be missing only
             for t in theorems:
                 self.obligation(f"theorem {t}", False, "module does not build")
+            # the executable model (the driver's modules) does not import the proof modules: when it still
+            # builds it keeps running, so that the search for a concrete failing input has the
+            # specification side to compare the implementation with
+            if extra_targets:
+                ok2, _log2 = lake_build(list(extra_targets))
+                self.lean_ok = ok2
+                self.extra["model_runs_although_proofs_broken"] = ok2
             return False
         self.obligation(f"lake build {module}", True)
         ax = lean_axioms(module, theorems)
